@@ -26,7 +26,7 @@ from easynetwork.serializers import (
 )
 from easynetwork.serializers.wrapper.base64 import Base64EncoderSerializer
 from easynetwork.serializers.wrapper.compressor import BZ2CompressorSerializer, ZlibCompressorSerializer
-from easynetwork.serializers.abc import BufferedIncrementalPacketSerializer
+from easynetwork.serializers.abc import AbstractIncrementalPacketSerializer, BufferedIncrementalPacketSerializer
 from easynetwork.serializers.base_stream import (
     AutoSeparatedPacketSerializer,
     FileBasedPacketSerializer,
@@ -106,6 +106,34 @@ class RawSep(AutoSeparatedPacketSerializer[bytes, bytes]):
         if b"\xff" in data:
             raise DeserializeError("0xff is not allowed")
         return bytes(data)
+
+
+class IncrOnlyText(AbstractIncrementalPacketSerializer[str, str]):
+    """an application-defined incremental serializer that implements ONLY the incremental interface (text + 0x1e terminator,
+    utf-8): its one-shot serialize() / deserialize() are the ones inherited from AbstractIncrementalPacketSerializer, so a
+    malformed datagram surfaces from the generator as an IncrementalDeserializeError"""
+
+    __slots__ = ("_limit",)
+    SEP = b"\x1e"
+
+    def __init__(self, limit: int = 65536) -> None:
+        super().__init__()
+        self._limit = limit
+
+    def incremental_serialize(self, packet: str):
+        yield packet.encode("utf-8") + self.SEP
+
+    def incremental_deserialize(self):
+        from easynetwork.exceptions import IncrementalDeserializeError
+        from easynetwork.serializers.tools import GeneratorStreamReader
+
+        reader = GeneratorStreamReader()
+        data = yield from reader.read_until(self.SEP, limit=self._limit, keep_end=False)
+        remainder = reader.read_all()
+        try:
+            return data.decode("utf-8"), remainder
+        except UnicodeError as exc:
+            raise IncrementalDeserializeError(str(exc), remainder) from exc
 
 
 class Fixed8(FixedSizePacketSerializer[bytes, bytes]):
@@ -386,6 +414,7 @@ def all_configs() -> list[Config]:
                     separator=sep,
                 )
             )
+    cfgs.append(Config("incronly-text", lambda limit=65536: IncrOnlyText(limit=limit), lambda rng: gen_text(rng, _UNI_POOL.replace("\x1e", ""), 0, 20).replace("\x1e", ""), separator=b"\x1e"))
     cfgs.append(Config("fixed8", lambda: Fixed8(8), lambda rng: bytes([rng.randrange(0, 255)]) + bytes(rng.getrandbits(8) for _ in range(7)), has_limit=False, kind="fixed"))
     cfgs.append(Config("fixed1", lambda: Fixed8(1), lambda rng: bytes([rng.randrange(0, 255)]), has_limit=False, kind="fixed"))
     cfgs.append(Config("lenfile", lambda limit=65536: LenPrefixedFile(limit=limit), lambda rng: gen_text(rng, _UNI_POOL, 0, 20), kind="file"))
